@@ -211,7 +211,7 @@ func TestZipkin(t *testing.T) {
 		Property: "C13", Check: "zipkin",
 		Rule: "zipkin.New(loopback URL) exporting " + strings.Replace(traceRule, "timestamps incl. epoch, pre-epoch and 2262", "start times in [1 s after the epoch, 2262) with End >= Start (sub-microsecond and half-microsecond corners)", 1) +
 			", or a duration in (0, 1 us), or a trace ID whose high 64 bits are zero",
-		Quick: 1200, Thorough: 12000,
+		Quick: 1500, Thorough: 20000,
 		Gen: genTraceCase(traceDomain{maxSpans: 16, zipkin: true}), Run: runZipkin,
 	})
 }
